@@ -17,3 +17,44 @@ Proof.
   split; [reflexivity|].
   intros is_frame k src H. unfold derived_kind. rewrite H, Bool.andb_false_r. reflexivity.
 Qed.
+
+(* single_row: the model's decision, per class of row key, IS the if/elif chain of TypeBlocks._slice_blocks
+   (type_blocks.py:1998-2015) regenerated into Gen/Gen_c04.v; and SF.Select.single_row is that decision applied to the key *)
+Lemma single_row_is_source kind rows range_n count len :
+  single_row_dec kind rows range_n count len = single_row_src kind rows range_n count len.
+Proof.
+  destruct kind; unfold single_row_dec, single_row_src; cbn [rkkind_eqb andb]; try reflexivity.
+  destruct (len =? 1); reflexivity.
+Qed.
+
+Lemma single_row_uses_decision rk n :
+  single_row rk n =
+  match rk with
+  | CAll => Ok (single_row_dec RNull n 0 0 0)
+  | CInt _ => Ok (single_row_dec RInt n 0 0 0)
+  | CSlice s => match slice_indices s n with
+                | None => Err "ValueError"
+                | Some (a, b, st) => Ok (single_row_dec RSlice n (range_len a b st) 0 0)
+                end
+  | CMask m => Ok (single_row_dec RMask n 0 (count_true m) 0)
+  | CList l => Ok (single_row_dec RIter n 0 0 (Z.of_nat (length l)))
+  end.
+Proof.
+  destruct rk as [|i|s|l|m]; cbn [single_row single_row_dec]; try reflexivity;
+    destruct (slice_indices s n) as [[[a b] st]|]; reflexivity.
+Qed.
+
+Lemma single_row_decision :
+  (forall kind rows range_n count len, single_row_dec kind rows range_n count len = single_row_src kind rows range_n count len) /\
+  (forall rk n, single_row rk n =
+     match rk with
+     | CAll => Ok (single_row_dec RNull n 0 0 0)
+     | CInt _ => Ok (single_row_dec RInt n 0 0 0)
+     | CSlice s => match slice_indices s n with
+                   | None => Err "ValueError"
+                   | Some (a, b, st) => Ok (single_row_dec RSlice n (range_len a b st) 0 0)
+                   end
+     | CMask m => Ok (single_row_dec RMask n 0 (count_true m) 0)
+     | CList l => Ok (single_row_dec RIter n 0 0 (Z.of_nat (length l)))
+     end).
+Proof. split; [exact single_row_is_source|exact single_row_uses_decision]. Qed.
